@@ -126,6 +126,8 @@ def build(layers, name, item, dflav=".pymarkdown", cflav="c.json", extra_mode=No
 
 
 class PrecSpace(spaces.Space):
+    SINGLE_DELETION = False
+
     def __init__(self, tier):
         self.name = f"precedence-{tier}"
         cases = []
